@@ -257,3 +257,59 @@ Lemma hoare_post A (P : State -> Prop) (m : M A) (Q Q' : A -> State -> Prop) (X 
 Proof. intros HQ HX H s Hs; specialize (H s Hs); destruct (m s); auto. Qed.
 Lemma inv_of_hoare A (J : State -> Prop) (m : M A) : hoare J m (fun _ => J) J -> inv J m.
 Proof. intros H; apply inv_hoare; exact H. Qed.
+
+(* [raises P m]: every error or panic code m can end with satisfies P *)
+Definition raises (P : Z -> Prop) {A} (m : M A) : Prop :=
+  forall s, match m s with Ok _ _ => True | Err e _ => P e | Panic e _ => P e end.
+Section Raises.
+  Context (P : Z -> Prop).
+  Lemma raises_ret A (a : A) : raises P (ret a).               Proof. intros s; exact I. Qed.
+  Lemma raises_gets A (g : State -> A) : raises P (gets g).     Proof. intros s; exact I. Qed.
+  Lemma raises_modify f : raises P (modify f).                   Proof. intros s; exact I. Qed.
+  Lemma raises_fail A e : P e -> raises P (@fail A e).           Proof. intros H s; exact H. Qed.
+  Lemma raises_panic A e : P e -> raises P (@panic A e).         Proof. intros H s; exact H. Qed.
+  Lemma raises_bind A B (m : M A) (f : A -> M B) : raises P m -> (forall a, raises P (f a)) -> raises P (bind m f).
+  Proof. intros Hm Hf s; unfold bind; specialize (Hm s); destruct (m s); auto. apply Hf. Qed.
+  Lemma raises_mfor A (l : list A) (f : A -> M unit) : (forall x, raises P (f x)) -> raises P (mfor l f).
+  Proof. intros H; induction l as [|x l IH]; cbn [mfor]; [apply raises_ret|]. apply raises_bind; [apply H | intros _; exact IH]. Qed.
+  Lemma raises_mfold A B (l : list A) (f : B -> A -> M B) : (forall acc x, raises P (f acc x)) -> forall acc, raises P (mfold l acc f).
+  Proof. intros H; induction l as [|x l IH]; intros acc; cbn [mfold]; [apply raises_ret|]. apply raises_bind; [apply H | intros acc'; apply IH]. Qed.
+  Lemma raises_mfor_swallow A (l : list A) (f : A -> M unit) : (forall x, raises P (f x)) -> raises P (mfor_swallow l f).
+  Proof.
+    intros H; induction l as [|x l IH]; cbn [mfor_swallow]; [apply raises_ret|].
+    intros s; specialize (H x s). destruct (f x s); auto. apply IH.
+  Qed.
+  Lemma raises_mfold_swallow A B (l : list A) (f : B -> A -> M B) : (forall acc x, raises P (f acc x)) -> forall acc, raises P (mfold_swallow l acc f).
+  Proof.
+    intros H; induction l as [|x l IH]; intros acc; cbn [mfold_swallow]; [apply raises_ret|].
+    intros s; specialize (H acc x s). destruct (f acc x s); auto. apply IH.
+  Qed.
+  Lemma raises_opt_or_panic A e (o : option A) : P e -> raises P (opt_or_panic e o).
+  Proof. intros H; destruct o; [apply raises_ret | apply raises_panic; exact H]. Qed.
+  Lemma raises_opt_or_fail A e (o : option A) : P e -> raises P (opt_or_fail e o).
+  Proof. intros H; destruct o; [apply raises_ret | apply raises_fail; exact H]. Qed.
+End Raises.
+
+(* [side] closes the obligations "P code" for the literal codes met on the way *)
+Ltac raises_deep side :=
+  repeat first
+    [ lazymatch goal with
+      | |- raises _ (ret _) => apply raises_ret
+      | |- raises _ (gets _) => apply raises_gets
+      | |- raises _ (modify _) => apply raises_modify
+      | |- raises _ (fail _) => apply raises_fail; side
+      | |- raises _ (panic _) => apply raises_panic; side
+      | |- raises _ (opt_or_panic _ _) => apply raises_opt_or_panic; side
+      | |- raises _ (opt_or_fail _ _) => apply raises_opt_or_fail; side
+      | |- raises _ (bind _ _) => apply raises_bind; [| intros ?]
+      | |- raises _ (mfor _ _) => apply raises_mfor; intros ?
+      | |- raises _ (mfold _ _ _) => apply raises_mfold; intros ? ?
+      | |- raises _ (mfor_swallow _ _) => apply raises_mfor_swallow; intros ?
+      | |- raises _ (mfold_swallow _ _ _) => apply raises_mfold_swallow; intros ? ?
+      | |- raises _ (if ?b then _ else _) => destruct b eqn:?
+      | |- raises _ (match ?x with _ => _ end) => destruct x eqn:?
+      | |- raises _ (let '(_, _) := ?x in _) => destruct x eqn:?
+      end
+    | lazymatch goal with
+      | |- raises _ ?m => let h := head_of m in unfold h
+      end ].
